@@ -1,8 +1,10 @@
 import AcraModel.Proxy.PipelineLemmas
 import AcraModel.Proxy.PlacementLemmas
+import AcraModel.Proxy.MySQLLemmas
 import AcraModel.Envelope.SafeCompatSame
 import AcraModel.Envelope.ExampleOps
 import AcraModel.Generated.Wiring
+import AcraModel.Generated.StmtForms
 /-!
 # C04 — the SQL proxy stores only protected forms and restores originals on read
 
@@ -15,7 +17,7 @@ Statements about values are made for values that are not already protected (`mat
 unwrapped by design (`C01.protect_passthrough`).
 -/
 namespace AcraModel.Props.C04
-open AcraModel AcraModel.Envelope AcraModel.Proxy Generated
+open AcraModel AcraModel.Envelope AcraModel.Proxy Generated AcraModel.Wire.LenEnc AcraModel.Typed
 
 /-! ## facts from the regenerated wiring -/
 
@@ -34,6 +36,36 @@ theorem fact_mysql_read_chain_order :
     Wiring.mysqlCallbackOrder = ["wrapper", "poisonDetector", "decrypt"] ∧
     Wiring.mysqlSubscriberOrder.getLast? = some "NewDataEncoderProcessor()" ∧
     Wiring.mysqlSubscriberOrder.contains "containerDetector" = true := by decide
+
+/-- The order `readChainMy` composes: in the MySQL `proxyFactory.New` the decoder processor is subscribed
+before the envelope detector and the encoder processor after it (the processors in between – tokenizer, HMAC –
+are registered only when some column uses them and return encryption-only columns unchanged). -/
+theorem fact_mysql_decoder_detector_encoder :
+    Wiring.mysqlSubscriberOrder.idxOf "NewDataDecoderProcessor()" < Wiring.mysqlSubscriberOrder.idxOf "containerDetector" ∧
+    Wiring.mysqlSubscriberOrder.idxOf "containerDetector" < Wiring.mysqlSubscriberOrder.idxOf "NewDataEncoderProcessor()" ∧
+    Wiring.mysqlSubscriberOrder.idxOf "NewDataEncoderProcessor()" < Wiring.mysqlSubscriberOrder.length := by decide
+
+/-- What the two query encryptors walk when they analyse an INSERT, as the model's `xfInsertStmt` / `xfInsertMy`
+and `bindPlan` / `bindPlanMy` have it: the statement text goes through `encryptExpression` (VALUES) and then
+`encryptUpdateExpressions` (the upsert assignments – PostgreSQL: over `OnConflictClause.TargetList`); the bound
+parameters are mapped by `getInsertPlaceholders` (VALUES), then `updatePlaceholderMap` over the upsert
+assignments, before `encryptValuesWithPlaceholders` runs. (Before the `fix:` commits the PostgreSQL facts had no
+`encryptUpdateExpressions` and neither front end walked the assignments for parameters.) -/
+theorem fact_upsert_walked :
+    StmtForms.pgInsertQueryCalls = ["onReturning", "encryptExpression", "encryptUpdateExpressions"] ∧
+    StmtForms.mysqlInsertQueryCalls = ["onReturning", "encryptExpression", "encryptUpdateExpressions"] ∧
+    StmtForms.pgInsertQueryWalks.contains "insert.GetOnConflictClause().GetTargetList()" = true ∧
+    StmtForms.pgInsertValuesWalks.contains "insert.GetOnConflictClause().GetTargetList()" = true ∧
+    StmtForms.mysqlInsertValuesWalks.contains "insert.OnDup" = true ∧
+    StmtForms.pgInsertValuesCalls = ["getInsertPlaceholders", "updatePlaceholderMap", "savePlaceholderSettingIntoClientSession", "encryptValuesWithPlaceholders"] ∧
+    StmtForms.mysqlInsertValuesCalls = ["getInsertPlaceholders", "updatePlaceholderMap", "savePlaceholderSettingIntoClientSession", "encryptValuesWithPlaceholders"] := by decide
+
+/-- The parameters of an UPDATE are mapped from exactly one list – the SET targets – in both front ends
+(`updatePlaceholders` over `u.sets`). -/
+theorem fact_update_values_walk :
+    StmtForms.pgUpdateValuesWalks = ["update.TargetList"] ∧ StmtForms.mysqlUpdateValuesWalks = ["update.Exprs"] ∧
+    StmtForms.pgUpdateValuesCalls = ["updatePlaceholderMap", "encryptValuesWithPlaceholders"] ∧
+    StmtForms.mysqlUpdateValuesCalls = ["updatePlaceholderMap", "encryptValuesWithPlaceholders"] := by decide
 
 /-! ## placement: which cells change (for every cell transformer) -/
 
@@ -125,7 +157,18 @@ theorem uncovered_identity_stmt {σ} (f : Xf σ) (sch : Schema) (s : Stmt) (st :
         split
         · rfl
         · rw [xfRows_unconfigured f t he]; rfl
-    simp [xfStmt, hx]
+    have hs : xfInsertStmt f sch i st = some (i, st) := by
+      unfold xfInsertStmt
+      cases ht : sch.table i.table with
+      | none => rfl
+      | some t =>
+        have he := h i.table rfl t ht
+        have hr : (if i.fromSelect then some (i, st) else xfInsert f sch i st) = some (i, st) := by
+          split
+          · rfl
+          · exact hx
+        simp only [hr, Option.bind_some, xfSets_unconfigured f t he, Option.map_some]
+    simp [xfStmt, hs]
   | update u =>
     have hx : xfUpdate f sch u st = some (u, st) := by
       unfold xfUpdate
@@ -135,7 +178,12 @@ theorem uncovered_identity_stmt {σ} (f : Xf σ) (sch : Schema) (s : Stmt) (st :
         have he := h u.table rfl t ht
         simp only
         rw [xfSets_unconfigured f t he]; rfl
-    simp [xfStmt, hx]
+    have hs : xfUpdateStmt f sch u st = some (u, st) := by
+      unfold xfUpdateStmt
+      split
+      · rfl
+      · exact hx
+    simp [xfStmt, hs]
   | select s => rfl
   | other n => rfl
 
@@ -188,15 +236,19 @@ theorem write_never_plain_param (c : CryptoOps) (kvW kvR : KeyView) (s : ColSett
   simp [encParam, hd, hemp, hw]
 
 /-- **read_restores.** What the write chain stored for `raw` (the container `p`), sent back by the database
-in text format – or in binary format for a typed column – comes out of the read chain of a reader whose
-keys include the writer's key as a value the client reads as exactly `raw`. (`raw ≠ p` holds whenever
-the AEAD adds bytes, `SealLen`.) -/
+in text format or in binary format – for a typed column AND for a column without data type – comes out of
+the read chain of a reader whose keys include the writer's key as a value the client reads as exactly `raw`.
+(`raw ≠ p` holds whenever the AEAD adds bytes, `SealLen`.) In the binary format a column without data type
+goes through the bytea text decoder first (`PgSQLDataDecoderProcessor`, `IsBinaryDataOperation`): on a
+serialized container it fails with `ErrDecodeOctalString` (`decodeEscaped_protect`: the top byte of the
+8-byte length field is a control character for containers below 2^61 bytes), so the detector receives
+exactly the stored bytes. -/
 theorem read_restores (c : CryptoOps) (kvW kvR : KeyView) (s : ColSetting) (fmt : Fmt) (raw rnd p : Bytes)
     (hne : raw ≠ [])
     (h : RoundTripHyps c s.kind kvW kvR raw rnd p)
     (hnm : matchKind s.kind raw = false) (hnr : registryMatch raw = false)
     (hp : protect c kvW s.kind raw rnd = .ok p) (hpr : raw ≠ p)
-    (hf : fmt = .text ∨ s.dtype ≠ .none) :
+    (hf : fmt = .text ∨ s.dtype ≠ .none ∨ p.length < 2^61) :
     writeChain c kvW s raw rnd = .ok p ∧
     ∃ x, readChain c kvR (some s) fmt (dbOut fmt p) = .ok x ∧ clientValue s fmt x = some raw := by
   refine ⟨writeChain_eq_protect c kvW kvR s raw rnd p h hnm hnr hp, ?_⟩
@@ -221,19 +273,36 @@ theorem read_restores (c : CryptoOps) (kvW kvR : KeyView) (s : ColSetting) (fmt 
       · simp [readChain, dbOut, hdec, hc, encodeCol, hemp, hdt]
       · simp [clientValue, hdt]
   | binary =>
-    have hty : s.dtype ≠ .none := by
-      cases hf with
-      | inl h => cases h
-      | inr h => exact h
-    have hdec : decodeCol (some s) .binary p = some (p, none) := by
-      have : (s.dtype != DType.none) = true := by simpa using hty
-      simp [decodeCol, this]
     refine ⟨raw, ?_, ?_⟩
     · cases hdt : s.dtype with
-      | none => exact absurd hdt hty
-      | bytes => simp [readChain, dbOut, hdec, hc, encodeCol, hemp, hdt]
-      | str => simp [readChain, dbOut, hdec, hc, encodeCol, hemp, hdt]
+      | none =>
+        have hl : p.length < 2^61 := by
+          rcases hf with h | h | h
+          · cases h
+          · exact absurd hdt h
+          · exact h
+        have hesc := decodeEscaped_protect c kvW s.kind raw rnd p hnm hnr hp hl
+        have hdec : decodeCol (some s) .binary p = some (p, none) := by
+          simp [decodeCol, hdt, hesc]
+        simp [readChain, dbOut, hdec, hc, encodeCol, hemp, hdt, hbne]
+      | bytes =>
+        have hdec : decodeCol (some s) .binary p = some (p, none) := by simp [decodeCol, hdt]
+        simp [readChain, dbOut, hdec, hc, encodeCol, hemp, hdt]
+      | str =>
+        have hdec : decodeCol (some s) .binary p = some (p, none) := by simp [decodeCol, hdt]
+        simp [readChain, dbOut, hdec, hc, encodeCol, hemp, hdt]
     · simp [clientValue]
+
+/-- **read_restores, binary format without data type – what reaches the detector.** The decoder hands the
+envelope detector exactly the stored container (no decoded copy, no remembered encoded value). -/
+theorem binary_untyped_delivers_stored (c : CryptoOps) (kv : KeyView) (s : ColSetting) (raw rnd p : Bytes)
+    (hnm : matchKind s.kind raw = false) (hnr : registryMatch raw = false)
+    (hp : protect c kv s.kind raw rnd = .ok p) (hl : p.length < 2^61) :
+    decodeCol (some s) .binary p = some (p, none) ∧ decodeCol none .binary p = some (p, none) := by
+  have hesc := decodeEscaped_protect c kv s.kind raw rnd p hnm hnr hp hl
+  constructor
+  · cases hdt : s.dtype <;> simp [decodeCol, hdt, hesc]
+  · simp [decodeCol, hesc]
 
 /-- **A reader without the keys gets the stored form.** If nothing inside the stored container `p` can be
 processed with the reader's keys (the hypotheses of C03 `onColumnCompat_decrypt_same`), then what the read
@@ -272,6 +341,181 @@ theorem uncovered_identity_column (c : CryptoOps) (kv : KeyView) (fmt : Fmt) (d 
     have hdec : decodeCol none fmt d = some (d', some d) := by simp [decodeCol, he]
     simp only [readChain, hdec, hc, bne_self_eq_false, encodeCol]
     split <;> simp
+
+/-! ## statement forms beyond VALUES / SET lists -/
+
+/-- **rewrite_frame (upsert).** The forwarded `INSERT … ON CONFLICT … DO UPDATE SET` (PostgreSQL, after the
+`fix:` commit) keeps table, column list and RETURNING; its assignments are the received ones in the same
+order, the value of a column without setting identical, the value of a column with a setting what the
+transformer returned for it with that setting – exactly as for the SET list of an UPDATE. -/
+theorem rewrite_frame_upsert {σ} (f : Xf σ) (sch : Schema) (t : Table) (i i' : Insert) (st st' : σ)
+    (ht : sch.table i.table = some t) (h : xfInsertStmt f sch i st = some (i', st')) :
+    i'.table = i.table ∧ i'.cols = i.cols ∧ i'.returning = i.returning ∧ setsRel f t i.onDup i'.onDup := by
+  unfold xfInsertStmt at h
+  simp only [ht] at h
+  cases hr : (if i.fromSelect then some (i, st) else xfInsert f sch i st) with
+  | none => simp [hr] at h
+  | some x =>
+    obtain ⟨i1, st1⟩ := x
+    simp only [hr, Option.bind_some, Option.map_eq_some_iff] at h
+    obtain ⟨⟨od, st2⟩, h1, h2⟩ := h
+    simp only [Option.some.injEq, Prod.mk.injEq] at h2
+    obtain ⟨rfl, _⟩ := h2
+    have hframe : i1.table = i.table ∧ i1.cols = i.cols ∧ i1.returning = i.returning := by
+      split at hr
+      · simp only [Option.some.injEq, Prod.mk.injEq] at hr
+        obtain ⟨rfl, _⟩ := hr
+        exact ⟨rfl, rfl, rfl⟩
+      · obtain ⟨a, b, c, _⟩ := rewrite_frame_insert f sch i i1 st st1 hr
+        exact ⟨a, b, c⟩
+    exact ⟨hframe.1, hframe.2.1, hframe.2.2, xfSets_rel f t i.onDup od st1 st2 h1⟩
+
+/-- **INSERT … SELECT is never rewritten** (known finding `insert-select-plaintext`, stated as what the code
+does): whatever the configuration and the transformer, the select list of an `INSERT … SELECT` is forwarded as
+received and none of its placeholders is planned for transformation – in both front ends. A value written
+into a protected column this way reaches the database in clear. -/
+theorem insert_select_not_rewritten {σ} (f : Xf σ) (sch : Schema) (i : Insert) (st : σ) (hs : i.fromSelect = true) :
+    (∀ i' st', xfInsertStmt f sch i st = some (i', st') → i'.rows = i.rows) ∧
+    (∀ i' st', xfInsertMy f sch i st = some (i', st') → i'.rows = i.rows) ∧
+    (i.onDup = [] → ∀ n, (bindPlan sch (.insert i) n = .untouched ∨ ∃ t, bindPlan sch (.insert i) n = planOf t [])) := by
+  refine ⟨?_, ?_, ?_⟩
+  · intro i' st' h
+    unfold xfInsertStmt at h
+    cases ht : sch.table i.table with
+    | none =>
+      simp only [ht, Option.some.injEq, Prod.mk.injEq] at h
+      obtain ⟨rfl, _⟩ := h; rfl
+    | some t =>
+      simp only [ht, hs, if_true, Option.bind_some, Option.map_eq_some_iff] at h
+      obtain ⟨⟨od, st2⟩, _, h2⟩ := h
+      simp only [Option.some.injEq, Prod.mk.injEq] at h2
+      obtain ⟨rfl, _⟩ := h2; rfl
+  · intro i' st' h
+    unfold xfInsertMy at h
+    cases ht : sch.table i.table with
+    | none =>
+      simp only [ht, Option.some.injEq, Prod.mk.injEq] at h
+      obtain ⟨rfl, _⟩ := h; rfl
+    | some t =>
+      simp only [ht, hs, Bool.or_true, if_true, Option.map_eq_some_iff] at h
+      obtain ⟨⟨od, st2⟩, _, h2⟩ := h
+      simp only [Option.some.injEq, Prod.mk.injEq] at h2
+      obtain ⟨rfl, _⟩ := h2; rfl
+  · intro hod n
+    cases ht : sch.table i.table with
+    | none => left; simp [bindPlan, ht]
+    | some t =>
+      by_cases hc : (insertColumns t i).isEmpty = true
+      · left; simp [bindPlan, ht, hc]
+      · right
+        exact ⟨t, by simp [bindPlan, ht, hc, hs, hod, insertPlaceholdersRows, updatePlaceholders]⟩
+
+/-- **The multi-column SET of PostgreSQL is never rewritten** (known finding `pg-update-multiassign-plaintext`):
+`UPDATE … SET (a, b) = (x, y)` is forwarded with the values it came with and none of its placeholders is planned. -/
+theorem update_multi_not_rewritten {σ} (f : Xf σ) (sch : Schema) (u : Update) (st : σ) (hm : u.multi = true) :
+    xfUpdateStmt f sch u st = some (u, st) ∧
+    ∀ n, (bindPlan sch (.update u) n = .untouched ∨ ∃ t, bindPlan sch (.update u) n = planOf t []) := by
+  refine ⟨by simp [xfUpdateStmt, hm], ?_⟩
+  intro n
+  cases ht : sch.table u.table with
+  | none => left; simp [bindPlan, ht]
+  | some t => right; exact ⟨t, by simp [bindPlan, ht, hm, updatePlaceholders]⟩
+
+/-! ## the MySQL front end -/
+
+/-- **write_never_plain_my (literal).** In a MySQL statement a string / hex literal or a number written into a
+protected column – not empty and not already protected – is replaced by a literal that denotes exactly
+`protect … raw`, a value different from `raw` (`mysql.DBDataCoder.Encode` prints it as `X'…'` unless the bytes
+are valid UTF-8). With `rewrite_frame_*` (the MySQL statement functions `xfInsertMy` / `xfUpdate` apply the
+transformer through the same `xfRow` / `xfSets`): every protected cell of VALUES, SET and
+ON DUPLICATE KEY UPDATE is such a literal. -/
+theorem write_never_plain_my (c : CryptoOps) (kvW kvR : KeyView) (s : ColSetting) (raw rnd p : Bytes)
+    (hne : raw ≠ [])
+    (h : RoundTripHyps c s.kind kvW kvR raw rnd p)
+    (hnm : matchKind s.kind raw = false) (hnr : registryMatch raw = false)
+    (hp : protect c kvW s.kind raw rnd = .ok p) (hpr : p ≠ raw) :
+    encCellMy c kvW s (.lit raw) rnd = some (.lit p, rnd.drop (rndUsed s.kind)) ∧
+    encCellMy c kvW s (.num raw) rnd = some (.lit p, rnd.drop (rndUsed s.kind)) := by
+  have hw := writeChain_eq_protect c kvW kvR s raw rnd p h hnm hnr hp
+  have hemp : raw.isEmpty = false := by cases raw <;> simp_all
+  have hbeq : (p == raw) = false := by simpa using hpr
+  constructor <;> simp [encCellMy, hemp, hw, hbeq, chainUsed, passthrough, hnm, hnr]
+
+/-- **write_never_plain_my (bound parameter).** A COM_STMT_EXECUTE parameter the statement binds to a protected
+column (VALUES, SET, or – after the `fix:` commit – ON DUPLICATE KEY UPDATE: `bindPlanMy`) is replaced by
+`protect …` of its value; every other parameter value stays what it was. -/
+theorem write_never_plain_my_param (c : CryptoOps) (kvW kvR : KeyView) (s : ColSetting) (m : List (Nat × ColSetting))
+    (params : List (Option Bytes)) (i : Nat) (raw rnd p : Bytes)
+    (hm : m.find? (·.1 == i) = some (i, s)) (hi : params[i]? = some (some raw)) (hne : raw ≠ [])
+    (h : RoundTripHyps c s.kind kvW kvR raw rnd p)
+    (hnm : matchKind s.kind raw = false) (hnr : registryMatch raw = false)
+    (hp : protect c kvW s.kind raw rnd = .ok p) :
+    bindLoop c kvW m (params.map fun v => (Fmt.binary, v)) [i] params rnd = some (params.set i (some p)) := by
+  have hw := writeChain_eq_protect c kvW kvR s raw rnd p h hnm hnr hp
+  have hemp : raw.isEmpty = false := by cases raw <;> simp_all
+  have hi' : (params.map fun v => (Fmt.binary, v))[i]? = some (Fmt.binary, some raw) := by
+    simp [List.getElem?_map, hi]
+  simp [bindLoop, hm, hi', getData, hemp, hw, setData, setAt]
+
+/-- **read_restores_my.** What the write chain stored for `raw` (the container `p`), sent back by the MySQL
+database in the text or in the binary protocol (BLOB / VARCHAR column, any `data_type` of the setting), comes
+out of the MySQL read chain of a reader whose keys include the writer's key as the length-encoded string of
+exactly `raw`: the client reads `raw`, whatever follows in the row. -/
+theorem read_restores_my (c : CryptoOps) (kvW kvR : KeyView) (s : ColSetting) (fmt : Fmt) (raw rnd p : Bytes)
+    (hne : raw ≠ []) (hl : raw.length < 2^64)
+    (h : RoundTripHyps c s.kind kvW kvR raw rnd p)
+    (hnm : matchKind s.kind raw = false) (hnr : registryMatch raw = false)
+    (hp : protect c kvW s.kind raw rnd = .ok p) (hpr : raw ≠ p) :
+    writeChain c kvW s raw rnd = .ok p ∧
+    readChainMy c kvR (some s) fmt .str (dbOutMy p) = .ok (myLenEnc raw) ∧
+    ∀ rest, clientValueMy fmt .str (myLenEnc raw ++ rest) = some raw := by
+  refine ⟨writeChain_eq_protect c kvW kvR s raw rnd p h hnm hnr hp, ?_, fun rest => clientValueMy_lenenc fmt raw rest hl⟩
+  have hc := compat_protected c s.kind kvW kvR raw rnd p h hnm hnr hp hpr
+  simp only [readChainMy, dbOutMy, decodeColMy_str, hc, encodeColMy_str]
+
+/-- **A MySQL reader without the keys gets the stored form**: if nothing inside the stored container can be
+processed with the reader's keys, the column is delivered as the length-encoded string of the container
+itself – never anything computed from the plaintext. -/
+theorem keyless_gets_stored_form_my (c : CryptoOps) (kv : KeyView) (s : Option ColSetting) (fmt : Fmt) (p : Bytes)
+    (h1 : ∀ i, i < p.length → startsWith containerTag (p.drop i) = true → ∀ m, process c kv (p.drop i) ≠ .ok m)
+    (h2 : ∀ x id sx, x <:+: p → serialize x id = .ok sx → ∀ m, process c kv sx ≠ .ok m) :
+    readChainMy c kv s fmt .str p = .ok (myLenEnc p) := by
+  obtain ⟨hit, hc⟩ := onColumnCompat_decrypt_same c kv p h1 h2
+  simp only [readChainMy, decodeColMy_str, hc, encodeColMy_str]
+
+/-- **uncovered_identity_my (statements and parameters).** A MySQL statement on a table without configuration
+entry is forwarded exactly as received, and so are the parameters of its COM_STMT_EXECUTE. -/
+theorem uncovered_identity_my_stmt (c : CryptoOps) (kv : KeyView) (sch : Schema) (s : Stmt) (rnd : Bytes)
+    (params : List (Option Bytes)) (order : List Nat)
+    (h : ∀ n, s.table = some n → sch.table n = none) :
+    forwardStmtMy c kv sch s rnd = s ∧ forwardBindMy c kv sch s params order rnd = .same := by
+  cases s with
+  | insert i => simp [forwardStmtMy, xfInsertMy, forwardBindMy, bindPlanMy, h i.table rfl]
+  | update u => simp [forwardStmtMy, xfUpdate, forwardBindMy, bindPlanMy, h u.table rfl]
+  | select s => simp [forwardStmtMy, forwardBindMy, bindPlanMy]
+  | other n => simp [forwardStmtMy, forwardBindMy, bindPlanMy]
+
+/-- **uncovered_identity_my (result columns).** A result column without setting in which nothing can be
+processed with the reader's keys is put back on the wire as it came: a length-encoded value as the
+length-encoded string of the same bytes (text and binary protocol), a fixed-width integer of the binary
+protocol – which travels through the chain as decimal text – as the same `k` bytes. -/
+theorem uncovered_identity_my_column (c : CryptoOps) (kv : KeyView) (fmt : Fmt) (d : Bytes) (k : Nat)
+    (hk : 1 ≤ k) (hd : d.length = k)
+    (h : ∀ d', (d' = d ∨ d' = formatInt (leToInt d)) →
+      (∀ i, i < d'.length → startsWith containerTag (d'.drop i) = true → ∀ m, process c kv (d'.drop i) ≠ .ok m) ∧
+      (∀ x id sx, x <:+: d' → serialize x id = .ok sx → ∀ m, process c kv sx ≠ .ok m)) :
+    readChainMy c kv none fmt .str d = .ok (myLenEnc d) ∧
+    readChainMy c kv none .binary (.int k) d = .ok d := by
+  constructor
+  · obtain ⟨h1, h2⟩ := h d (Or.inl rfl)
+    exact keyless_gets_stored_form_my c kv none fmt d h1 h2
+  · obtain ⟨h1, h2⟩ := h (formatInt (leToInt d)) (Or.inr rfl)
+    obtain ⟨hit, hc⟩ := onColumnCompat_decrypt_same c kv _ h1 h2
+    obtain ⟨hdec, henc⟩ := int_detour k d hk hd
+    have hemp : (formatInt (leToInt d)).isEmpty = false := by
+      have := formatInt_ne_nil (leToInt d)
+      cases hf : formatInt (leToInt d) <;> simp_all
+    simp [readChainMy, hdec, hc, encodeColMy, hemp, henc]
 
 /-! ## pending queue -/
 
@@ -354,6 +598,65 @@ example :
     rw [this, write_never_plain_hex s p (by decide)]
     rfl
   · exact (read_restores toyOps kvW kvR s .text [9,9] _ p (by decide) hH hnm hnr hp (fun h => hne h.symm) (Or.inl rfl)).2
+
+/-- `write_never_plain_my` / `read_restores_my` with the same concrete keys and toy instance: the MySQL literal
+`X'0909'` of an AcraBlock column is forwarded as a literal denoting a container `p ≠ 0909`, and the owner reads
+`0909` back in the binary protocol. -/
+example :
+    let kvW : KeyView := ⟨none, none, some [1,2,3], none⟩
+    let kvR : KeyView := ⟨none, none, some [4,5], some ([[4,5]] ++ [1,2,3] :: [[1,2,9]])⟩
+    let s : ColSetting := { kind := .block }
+    ∃ p, encCellMy toyOps kvW s (.lit [9, 9]) (List.replicate 56 5) = some (.lit p, []) ∧
+      p ≠ [9, 9] ∧
+      readChainMy toyOps kvR (some s) .binary .str p = .ok (myLenEnc [9, 9]) ∧
+      clientValueMy .binary .str (myLenEnc [9, 9] ++ [1, 2, 3]) = some [9, 9] := by
+  intro kvW kvR s
+  have hs := toy_sealLaws
+  have hsl := toy_sealLen
+  have hkid := AcraModel.Props.C01.keyId_length toyOps toy_hashLen [1,2,3] []
+  have hnm : matchKind .block [9,9] = false := by decide
+  have hnr : registryMatch [9,9] = false := by decide
+  obtain ⟨p, hp⟩ := AcraModel.Props.C01.protect_block_total toyOps hs kvW [1,2,3] [9,9] (List.replicate 56 5) rfl (by decide) (by decide)
+    (by decide) (by decide)
+  obtain ⟨hpl, _⟩ := AcraModel.Props.C01.protect_block_length toyOps hs hsl kvW [1,2,3] [9,9] _ p rfl hkid hnm hnr hp
+  have hpl' : p.length = 152 := hpl
+  have hek : ∀ encKey, toyOps.enc [1,2,3] [] ((List.replicate 56 5).take 32) (((List.replicate 56 (5:UInt8)).drop 44).take 12) = some encKey →
+      encKey.length < 65536 := by
+    intro ek h
+    have := hsl.enc_len _ _ _ _ _ h
+    rw [this]; decide
+  have hkpre : ∀ k' ∈ [[4,5]], ∀ encKey, toyOps.enc [1,2,3] [] ((List.replicate 56 5).take 32) (((List.replicate 56 (5:UInt8)).drop 44).take 12) = some encKey →
+      keyId toyOps k' [] = keyId toyOps [1,2,3] [] → toyOps.dec k' [] encKey = none := by
+    intro k' hk' encKey _ hid
+    simp only [List.mem_singleton] at hk'
+    subst hk'
+    exact absurd hid (by decide)
+  have hne : p ≠ [9, 9] := by
+    intro h
+    have := congrArg List.length h
+    rw [hpl'] at this
+    simp at this
+  have hH : RoundTripHyps toyOps s.kind kvW kvR [9,9] (List.replicate 56 5) p :=
+    ⟨hs, [1,2,3], [[4,5]], [[1,2,9]], hkid, rfl, rfl, hkpre, hek, by rw [hpl']; decide⟩
+  have hw := (write_never_plain_my toyOps kvW kvR s [9,9] _ p (by decide) hH hnm hnr hp hne).1
+  have hr := read_restores_my toyOps kvW kvR s .binary [9,9] _ p (by decide) (by decide) hH hnm hnr hp (fun h => hne h.symm)
+  exact ⟨p, by rw [hw]; rfl, hne, hr.2.1, hr.2.2 [1,2,3]⟩
+
+/-- `uncovered_identity_my_column` on the id column of a binary-protocol row: the four bytes of the integer 7
+travel through the chain as the text `7` and come back as the same four bytes. -/
+example : readChainMy toyOps ⟨none, none, none, none⟩ none .binary (.int 4) [7, 0, 0, 0] = .ok [7, 0, 0, 0] := by decide
+
+/-- `insert_select_not_rewritten` / `rewrite_frame_upsert` on concrete statements: the transformer reaches the
+ON CONFLICT assignment of a protected column, and nothing of an `INSERT … SELECT`. -/
+example :
+    let t : Table := { name := "t", columns := ["id", "data"], encrypted := [("data", { kind := .block })] }
+    let f : Xf Nat := fun _ _ n => some (.lit [1], n + 1)
+    xfStmt f [t] (.insert { table := "t", cols := ["id"], rows := [[.num [49]]], onDup := [("data", .lit [65]), ("id", .num [50])] }) 0 =
+      (.insert { table := "t", cols := ["id"], rows := [[.num [49]]], onDup := [("data", .lit [1]), ("id", .num [50])] }, 1) ∧
+    xfStmt f [t] (.insert { table := "t", cols := ["id", "data"], rows := [[.num [49], .lit [65]]], fromSelect := true }) 0 =
+      (.insert { table := "t", cols := ["id", "data"], rows := [[.num [49], .lit [65]]], fromSelect := true }, 0) := by
+  intro t f
+  exact ⟨rfl, rfl⟩
 
 /-- `pending_pairs` on a run where the FIFO pairing is not trivial: two Executes and a Sync pipelined, the
 first fails (the database discards the second), then a simple query whose row must be paired with the
